@@ -8,13 +8,50 @@ HERE = os.path.dirname(os.path.dirname(os.path.abspath(__file__)))
 
 CHECKS = {
     # id: (technique, level text, level_note, design_ref)
+    "C01": ("systematic enumeration of every accepted (sde_type, noise_type, method, options, Levy) cell x closed-form SDE "
+            "family + Hypothesis-generated cells/coefficients; measured strong-order slope on a dt ladder against the "
+            "closed-form solution on the same Brownian object",
+            "Generated-input search with a closed-form pathwise oracle: RMS error over 2048 paths on dt=T*2^-3..2^-8, "
+            "least-squares slope >= advertised order - 0.25; adaptive runs must not lose accuracy when tolerances "
+            "tighten. A finite ladder in a coefficient box: evidence of the rate, not a limit proof. Found D2/D3.",
+            "Closed forms (reducible, commuting-linear, scaled-additive) are trusted; the non-commutative family uses a "
+            "fine Riemann reference on the same Brownian object; margin 0.25 calibrated on the unchanged tree.",
+            "DESIGN.md §4 C01"),
+    "C02": ("sympy-generated scalar drift/diffusion programs; real solver.step driven by a stub Brownian motion on a "
+            "Gauss-Hermite grid of increments; residual against the sympy-built order-1.5 Ito-Taylor expansion on an h "
+            "ladder; explicit-Jacobian textbook formulas for Euler/Milstein in several dimensions",
+            "Generated-input search with a symbolic-expansion oracle: RMS and mean of (step - Taylor) are deterministic "
+            "functions of h whose slopes must reach p+1/2 and p+1; every accepted combination is enumerated once and "
+            "random programs/base points are generated on top. Numeric evidence for scalar SDEs, not a symbolic proof.",
+            "Trusts sympy differentiation and Gauss-Hermite quadrature (12x12); multi-dimensional Levy-area terms are not "
+            "expanded (covered end-to-end by C01).",
+            "DESIGN.md §4 C02"),
+    "C03": ("Hypothesis-generated Brownian configurations + query histories (op lists) with algebraic oracles",
+            "Generated-input search: additivity of W and U, exact zeros, antisymmetry, Chen's relation over the stored "
+            "pieces, end-of-history partition consistency and wrapper identities on every generated history; held on "
+            "everything generated.",
+            "Tolerance 256*eps*scale (worst observed ~3 eps); stored pieces are read from private tree slots.",
+            "DESIGN.md §4 C03"),
+    "C04": ("labelled-noise linear-map recovery (exact covariances), affine Levy probe, real-generator KS/moment screen; "
+            "Hypothesis-generated histories",
+            "Generated-input search with exact oracles: the Gram matrix of returned (W,U) coefficient vectors must equal "
+            "the Brownian covariance on the generated partition (1e-9); conditional mean/variance of Davie/Foster areas "
+            "exactly; Gaussianity only screened statistically. Found D1.",
+            "Seed-labelled noises idealised as iid N(0,1); 32-bit seed birthday collisions excluded and counted; "
+            "torch.randn trusted up to KS/moments at p=1e-9.",
+            "DESIGN.md §4 C04"),
     "C05": ("Hypothesis-generated query histories + model dict of first answers (bit-equality oracle); recording proxy "
             "through sdeint_adjoint",
-            "Generated-input search: every repeat in thousands of generated histories (all cache sizes, dt hint or "
-            "inferred with a forced mid-history tree rebuild, tol, dyadic mode, wrappers) is compared bit-for-bit with "
-            "the first answer; held on everything generated, not a proof.",
+            "Generated-input search: every repeat in generated histories (all cache sizes, dt hint or inferred with a "
+            "forced mid-history tree rebuild, tol, dyadic mode, wrappers) is compared bit-for-bit with the first answer; "
+            "held on everything generated, not a proof.",
             "Trusts torch.equal and Hypothesis' generators; tree rebuilds are observed through a private slot.",
             "DESIGN.md §4 C05"),
+    "C06": ("Hypothesis-generated pairs of histories (differential runs of two objects), bit-equality oracle",
+            "Generated-input search: same entropy+queries -> identical; dyadic mode: two different generated histories "
+            "then the same targets -> identical; different entropy -> different. Held on everything generated.",
+            "Bit identity via torch.equal; 'different paths' is a probability-one event.",
+            "DESIGN.md §4 C06"),
     "C07": ("Hypothesis-generated configurations and histories (incl. 1e3-1e5 step sweeps and sdeint-driven schedules) "
             "run under a recursion limit of depth+250 and a per-call node-creation budget",
             "Generated-input search with deterministic resource oracles (recursion head-room, node budget, cache "
@@ -22,6 +59,86 @@ CHECKS = {
             "Non-termination is decided by a work counter (2e5 tree nodes per call), never by a clock; cache occupancy "
             "is read from a private dict.",
             "DESIGN.md §4 C07"),
+    "C08": ("Hypothesis-generated SDE programs/configurations; autograd directional derivative vs central differences "
+            "with the Brownian path fixed (adaptive: recorded schedule replayed)",
+            "Generated-input search with a finite-difference oracle (rel 1e-6, worst observed 6e-8) over all solvers, "
+            "noise types, options, fixed and adaptive steps.",
+            "Central differences eps=1e-5 in float64; adaptive derivative is taken with the accepted step sequence frozen.",
+            "DESIGN.md §4 C08"),
+    "C09": ("systematic enumeration of every admissible (method, adjoint_method) cell on closed-form SDE families with "
+            "per-row parameters + Hypothesis-generated cases; gradient-error slope on a dt ladder; bit-equality of forward "
+            "values; gradient bookkeeping",
+            "Generated-input search: adjoint gradients vs autograd through the closed-form solution on the same "
+            "Brownian object (RMS over 512 paths, slope >= 0.35/0.75), forward values bit-identical to sdeint, only "
+            "requested tensors receive gradients (known finding D10 listed).",
+            "Order-0.5 adjoints cannot resolve sub-percent formula errors end-to-end (C11 covers the formulas).",
+            "DESIGN.md §4 C09"),
+    "C10": ("Hypothesis-generated SDE programs on dyadic grids; differential oracle adjoint_reversible_heun vs backprop",
+            "Generated-input search: gradients agree to 1e-9 relative (worst observed 3e-12) for all four noise types, "
+            "sizes, output-time subsets and loss weights generated.",
+            "Dyadic dt/t0 only (the property's premise 'whole multiples of dt' fails in floating point otherwise).",
+            "DESIGN.md §4 C10"),
+    "C11": ("Hypothesis-generated SDE programs/augmented states; independent construction of the adjoint fields (plain "
+            "autograd VJPs + generic Stratonovich->Ito conversion by central differences) compared with AdjointSDE",
+            "Generated-input search with an independently derived oracle at 1e-7 (worst observed 3e-10); graph discipline "
+            "under no_grad / second derivative under grad checked.",
+            "First derivatives from torch.autograd (cross-checked by finite differences), second-order terms by central "
+            "differences eps=1e-5.",
+            "DESIGN.md §4 C11"),
+    "C12": ("Hypothesis-generated (SDE, solver, t0, dt, two output-time vectors, dtype, ts form); recording Brownian proxy "
+            "+ metamorphic comparison with the run whose ts is the grid",
+            "Generated-input search: query log equals the prescribed grid, grid-time outputs bit-identical, interior "
+            "outputs equal the recomputed linear interpolant (4 ulp), values at shared times invariant.",
+            "Reference trajectory is the same code run with ts = grid; the grid rule is recomputed independently.",
+            "DESIGN.md §4 C12"),
+    "C13": ("Hypothesis-generated restart points on the recorded step grid; differential one-shot vs chunked runs",
+            "Generated-input search: states, extra solver state and Brownian query log bit-identical for 1-5 chunks, all "
+            "solvers incl. reversible Heun's (f,g,z) state.",
+            "Restart points are taken from the grid actually used.",
+            "DESIGN.md §4 C13"),
+    "C14": ("Hypothesis-generated SDEs/tolerances/dt/dt_min incl. stiff and fully clamped schedules; recording proxy + "
+            "recorded controller values, independent error-norm recomputation",
+            "Generated-input search over controller schedules: trial structure, tiling, dt_min, accept rule, strict "
+            "shrink on rejection, returned values, trial-count bound. Found D9 (zero-length half steps).",
+            "Controller decisions observed by wrapping two module functions for one case; termination by a trial bound.",
+            "DESIGN.md §4 C14"),
+    "C15": ("Hypothesis-generated SDE programs; round-trip oracle (forward solve, then reverse solve of the negated, "
+            "time-reversed SDE with ReverseBrownian)",
+            "Generated-input search: trajectory reconstructed to 1e-12 (1 step) / 1e-8 (<=64 steps); worst observed "
+            "2e-16 / 1e-13. Numeric evidence, not a symbolic proof.",
+            "Dyadic grids; stability window n <= 64.",
+            "DESIGN.md §4 C15"),
+    "C16": ("Hypothesis-generated SDE programs x 9 interface variants (differential, bit-equality or explicit error) and "
+            "derived operators vs explicit Jacobians",
+            "Generated-input search: every interface variant is either bit-identical to (f,g) or an explicit error; "
+            "prod / g dg v / Levy-area Jacobian term equal their definitions to 1e-10. Found D2.",
+            "User-side g_prod is written with the same tensor ops as the library default; reference Jacobians from "
+            "torch.autograd.functional.jacobian.",
+            "DESIGN.md §4 C16"),
+    "C17": ("Hypothesis-generated special-structure SDEs; differential oracle special declaration vs general embedding",
+            "Generated-input search: diagonal/scalar/additive vs general declaration agree to 1e3*eps (observed "
+            "bit-identical) for every solver accepting both.",
+            "Diagonal diffusion is element-wise as documented.",
+            "DESIGN.md §4 C17"),
+    "C18": ("Hypothesis-generated SDEs with prior drift; differential (logqp on/off), independent user-level augmentation, "
+            "exact 1/2|c|^2 metamorphic case",
+            "Generated-input search: shape, non-negativity, additivity, undisturbed states, equality with an independent "
+            "augmentation (1e-10), exact value when f-h=g c.",
+            "Independent augmentation shares the solver but not SDELogqp/stable_division/pinverse.",
+            "DESIGN.md §4 C18"),
+    "C19": ("exhaustive itertools.product enumeration of the configuration matrix against a documentation-derived table; "
+            "Hypothesis-generated malformed arguments in the thorough tier",
+            "Exhaustive over the finite product (5632 forward cells, 946 adjoint cells, defaults, 30 malformed classes x "
+            "8 SDE kinds x 2 APIs) on every run: accepted cells integrate, others raise ValueError with zero Brownian "
+            "queries, unsupported adjoint methods are refused at backward.",
+            "The accepted-combination table is transcribed from DOCUMENTATION.md and solver docstrings.",
+            "DESIGN.md §4 C19"),
+    "C20": ("Hypothesis-generated SDEs/solvers/batches; metamorphic row perturbation (bit-equality), row permutation, "
+            "noise-row perturbation of the Brownian tree",
+            "Generated-input search: row i is bit-identical when other rows of y0 and of the Brownian sample change; "
+            "permutation equivariance at 1e3*eps; a perturbed noise row moves only its own row of W/U/A.",
+            "Generated SDEs act row-wise; fixed steps.",
+            "DESIGN.md §4 C20"),
 }
 
 NOT_YET = {}
@@ -48,8 +165,8 @@ def main():
             })
         else:
             na.append({"property_id": pid, "reason": NOT_YET.get(
-                pid, "check under construction in this session: not claimed until its generated-input check is "
-                     "registered here (technique applies; see DESIGN.md §4)")})
+                pid, "check under construction: not claimed until its generated-input check is registered here "
+                     "(the technique applies; see DESIGN.md §4)")})
     try:
         hooks = subprocess.check_output(["git", "-C", "/repo", "log", "--format=%h %s", "--grep=^hook:"],
                                         text=True).split("\n")
